@@ -370,7 +370,15 @@ async fn eng_case(rng: &mut Rng, sum: &mut Summary, thorough: bool) -> EngCase {
     for i in 0..n {
         let roll = rng.below(20);
         let evict = !present.is_empty() && match scenario { 0 | 1 | 7 => roll < 5, 6 => false, _ => i > 12 && roll < 3 };
-        let op = if evict {
+        let reannounce = !evict && !present.is_empty() && matches!(scenario, 0 | 1 | 7 | 2 | 3) && roll >= 18;
+        let op = if reannounce {
+            // a peer that is already listed announces itself again from ANOTHER address: pure refresh
+            let id = present[rng.below(present.len() as u64) as usize];
+            let ip = match scenario { 2 => Ip::V4(base4 | 0x0001), 3 => Ip::V6(base6 | 1), _ => pool.pick(rng) };
+            let (form, text) = render(rng, ip, match rng.below(4) { 0 => 0, 1 => 1, _ => 3 });
+            sum.count("engine:reannounce");
+            EOp::Add { id, form, text, valid: rng.chance(1, 2) }
+        } else if evict {
             let id = if rng.chance(9, 10) { present[rng.below(present.len() as u64) as usize] } else { rng.bytes(32).try_into().unwrap() };
             if rng.chance(1, 2) { EOp::Evict(id) } else { EOp::Fail(id) }
         } else {
@@ -409,7 +417,7 @@ async fn eng_case(rng: &mut Rng, sum: &mut Summary, thorough: bool) -> EngCase {
             EOp::Add { id, text, form, .. } => {
                 let node = NodeInfo { id: NodeId::from_bytes(*id), address: text.clone(), last_seen: std::time::SystemTime::now(), capacity: NodeCapacity::default() };
                 let r = match eng.add_node(node).await { Ok(()) => 0, Err(e) => err_code(&e.to_string()) };
-                if r == 0 { present.push(*id); }
+                if r == 0 && !present.contains(id) { present.push(*id); }
                 sum.count(&format!("engine:add:{}", ["ok", "validator", "ip-diversity", "region", "bucket-full", "", "", "", "", "other-error"][r as usize]));
                 sum.count(&format!("engine:form:{}", match form { Form::Bare(_) => "ip", Form::Sock(..) => "ip:port", Form::Display(_, _, true) => "display+words", Form::Display(_, _, false) => "display", Form::Garbage => "garbage" }));
                 r
